@@ -17,7 +17,7 @@ RULE = ("static part, exhaustive over a finite table: for EVERY structure of the
         "and read back from the object file; EVERY function is called on argument alphabets and must return byte for byte what the corresponding C++ operation returns (same random stream "
         "where one is consumed). distinct by construction; non-trivial = every row")
 ASSUMPTIONS = ["the C++ side is decided by C01-C16; this check only compares the two views"]
-CONFIGS = ["asm", "c64", "c32"]
+CONFIGS = ["asm", "c64", "c32", "o0"]
 
 
 def layout_rows(cfg):
